@@ -615,6 +615,10 @@ class Emitter:
 
     def emit_function(s, f):
         parse_body(f)
+        s.cur_defs = {}
+        for _bn, _ins in f.blocks.items():
+            for _x in _ins:
+                if _x.res: s.cur_defs[_x.res] = _x
         L = []
         decls = collections.OrderedDict()
         def decl(name, t):
@@ -785,6 +789,27 @@ class Emitter:
         hdr += ''.join('  %s %s;\n' % (t, n) for n, t in decls.items())
         return hdr + '\n'.join('  ' + l for l in L) + '\n}\n'
 
+    def size_align(s, t):
+        t = s.resolve(t)
+        if isinstance(t, Int): b = max(1, (t.b + 7) // 8); b2 = 1
+        if isinstance(t, Int):
+            n = 1
+            while n < b: n *= 2
+            return n, n
+        if isinstance(t, Flt): return {'float': (4, 4), 'double': (8, 8), 'x86_fp80': (16, 16)}[t.k]
+        if isinstance(t, Ptr): return 8, 8
+        if isinstance(t, Arr):
+            sz, al = s.size_align(t.t); return sz * t.n, al
+        if isinstance(t, Vec):
+            sz, al = s.size_align(t.t); return sz * t.n, min(sz * t.n, 32)
+        if isinstance(t, Struct):
+            off = 0; mal = 1
+            for f in t.f:
+                sz, al = s.size_align(f)
+                if t.packed: al = 1
+                mal = max(mal, al); off = (off + al - 1) // al * al + sz
+            return (off + mal - 1) // mal * mal, mal
+        raise TypeError(t)
     def zero(s, t):
         if isinstance(t, Void): return ''
         rt = s.resolve(t)
@@ -881,6 +906,16 @@ class Emitter:
                 if name.startswith(('@llvm.lifetime', '@llvm.dbg', '@llvm.experimental.noalias')): return []
         else:
             cname = '(%s)' % s.val(cal)
+        if cal.kind == 'global' and cal.name.startswith('@llvm.memcpy') and x.args[2].kind == 'const':
+            d0 = s.cur_defs.get(x.args[0].name) if x.args[0].kind == 'local' else None
+            s0 = s.cur_defs.get(x.args[1].name) if x.args[1].kind == 'local' else None
+            if d0 is not None and s0 is not None and d0.op == 'cast' and s0.op == 'cast' and d0.cop == 'bitcast' and s0.cop == 'bitcast' \
+               and repr(d0.val.ty) == repr(s0.val.ty) and isinstance(d0.val.ty, Ptr):
+                try:
+                    sz, _ = s.size_align(d0.val.ty.t)
+                except Exception: sz = -1
+                if sz == int(x.args[2].text):
+                    return ['*%s = *%s; /* typed memcpy %d */' % (s.val(d0.val), s.val(s0.val), sz)]
         isvoid = isinstance(x.rty, Void)
         if not isvoid: decl(x.res or ('__unused%d' % id(x)), x.rty)
         lhs = '' if isvoid or not x.res else r + ' = '
